@@ -6,13 +6,18 @@
    Status of the three clauses on the code as it is in /repo:
      well-formed and   proved for every accepted document, at full strength (C18_wf);
      self-contained
-     reads faithfully  C18_sound_full is the statement; it is refuted outside the supported subset
+     reads faithfully  C18_sound_full is the statement.  Proved: the instance clauses (one instance per
+                       statement, in order, with the named definition, kind, .cname/.attr/.param/truth
+                       table; every named definition exists) for every supported document
+                       (C18_sound_instances).  Not proved: the connectivity clause (ds_nets), the
+                       library and direction clauses - they are checked by the correspondence run and the
+                       design oracle only.  Outside the supported subset the statement is refuted
                        (C18_sound_refuted_*: statement lines the reader silently skips);
      write-then-read   C18_full is the statement; REFUTED (C18_roundtrip_refuted: the written file
                        of a supported document is rejected on re-reading). *)
 From Coq Require Import List Permutation.
 From SV Require Import Base.Base Fmt.Blif Fmt.BlifRead Fmt.BlifWrite Fmt.BlifSpec
-  Proofs.BlifWF Proofs.BlifExec Proofs.BlifC18.
+  Proofs.BlifWF Proofs.BlifExec Proofs.BlifSound Proofs.BlifC18.
 
 (* ---- well-formedness and self-containedness ---- *)
 (* every accepted document, no restriction: model names distinct; every pin on a wire names a declared
@@ -38,6 +43,21 @@ Print Assumptions C18_wf_example_blackbox.
 (* ---- the reader builds what the file says ---- *)
 Definition C18_sound_full : Prop := forall d n, supported d = true -> elab d = Ok n -> denote d n.
 
+(* proved part: for every supported document and every model it declares, the model exists, its
+   instances are - in order - exactly the instance statements of its section with the named definition,
+   the kind and the data that follows them, and every definition an instance names exists *)
+Theorem C18_sound_instances : forall d n,
+  supported d = true -> elab d = Ok n ->
+  exists ss, grammar d = Some ss /\
+    forall nm, In nm (model_names ss) ->
+      (exists m, find_model nm (b_models n) = Some m) /\
+      (forall m, find_model nm (b_models n) = Some m ->
+         map isig_of_inst (m_insts m) = spec_insts nil (body_of nm nil ss)) /\
+      (forall m x, find_model nm (b_models n) = Some m -> In x (m_insts m) ->
+         exists r, find_model (i_ref x) (b_models n) = Some r).
+Proof. exact sound_insts. Qed.
+Print Assumptions C18_sound_instances.
+
 (* the supported subset is inhabited by the example documents *)
 Example C18_supported_example : supported doc_flat = true /\ supported doc_blackbox = true.
 Proof. exact (conj doc_flat_supported doc_blackbox_supported). Qed.
@@ -60,3 +80,16 @@ Definition C18_full : Prop := C18_roundtrip_statement.
 Theorem C18_roundtrip_refuted : ~ C18_full.
 Proof. exact roundtrip_refuted. Qed.
 Print Assumptions C18_roundtrip_refuted.
+
+(* on the example document the written file re-reads, with the same instances (name, definition, kind,
+   data sizes) both ways and as many connected pins: the clause is satisfiable by a non-trivial input.
+   No general write-then-read theorem is proved (it would need the writer's output to be characterised
+   for every netlist in the image of the reader, and it is false without excluding the three classes of
+   input listed in the engine report). *)
+Example C18_roundtrip_example :
+  exists n n' m m', elab doc_flat = Ok n /\ elab (emit n) = Ok n' /\
+    find_model nm_top (b_models n) = Some m /\ find_model nm_top (b_models n') = Some m' /\
+    insts_covered_b m m' = true /\ insts_covered_b m' m = true /\
+    length (cable_pins (m_cables m)) = length (cable_pins (m_cables m')).
+Proof. exact roundtrip_example. Qed.
+Print Assumptions C18_roundtrip_example.
